@@ -543,6 +543,28 @@ def _gen_string(rng, tier, variant):
         d = {'spec': spec, 'items': items, 'off': off, 'buf': buf.hex(), 'enc': enc}
         d.update(extra)
         yield d
+    # fields that start inside a byte, are not a whole number of bytes long and end exactly with the packet
+    for off in (1, 3, 5, 11):
+        for nchars in (1, 3, 4):
+            for delim in ('none', 'lead'):
+                text = 'abcd'[:nchars]
+                payload = text.encode('US-ASCII')
+                lead = 5 if delim == 'lead' else 0
+                L = lead + 8 * nchars
+                total = off + L
+                if total % 8 != 0:
+                    # pad the FIELD (not the packet) so that it ends on the last bit of the packet
+                    L += 8 - total % 8
+                    total = off + L
+                if L % 8 == 0:
+                    continue
+                field = ((8 * nchars) << (L - lead) if lead else 0) | (int.from_bytes(payload, 'big') << (L - lead - 8 * nchars))
+                nbytes = total // 8
+                buf = ((rng.getrandbits(off) << (nbytes * 8 - off)) | field).to_bytes(nbytes, 'big')
+                d = {'spec': {'len': ['fixed', L], 'expect_bits': L}, 'items': [], 'off': off, 'buf': buf.hex(), 'enc': 'US-ASCII'}
+                if lead:
+                    d['lead'] = lead
+                yield d
 
 
 def _mk_string(r):
@@ -624,6 +646,7 @@ _N = '(packet.raw_data.pos - old(packet.raw_data.pos))'
 _LEAD = 'not is_none(self.leading_length_size) and self.leading_length_size != 0'
 _W = 'len(self.termination_character)'
 _TAG = 'bits(result.raw_value, 0, self.leading_length_size)'
+_RTAG = 'bits(raw_string_buffer, 0, self.leading_length_size)'
 
 CONTRACTS += [
     Contract(
@@ -665,6 +688,11 @@ CONTRACTS += [
                              'dynamic_length_reference', 'length_linear_adjuster', STR_REF_VALUE, True, consumer='(packet.raw_data.pos - old(packet.raw_data.pos))'),
         ),
         may_raise={'ValueError': 'True', 'KeyError': 'True', 'ComparisonError': 'True'},
+        # C07 (PROVED): once the length is computed, ValueError only for a negative length or a field that extends past
+        # the end of the packet - a field that lies inside the packet is never rejected
+        ensures_raise={'ValueError': {'only_bad_length': (
+            "implies(bound('buflen_bits'), buflen_bits < 0 or "
+            "old(packet.raw_data.pos) + buflen_bits > 8 * len(packet.raw_data))", ['__proof__'])}},
         modifies=['packet.raw_data.pos'],
     ),
     Contract(
@@ -692,6 +720,9 @@ CONTRACTS += [
                 'ComparisonError': ("outcome(ref_binary_parse(self, packet, packet.raw_data.pos, adj)) == 'ComparisonError'", ['__native__'])},
         may_raise={'ValueError': ('True', ['__proof__']), 'KeyError': ('True', ['__proof__']),
                    'ComparisonError': ('True', ['__proof__'])},
+        ensures_raise={'ValueError': {'only_bad_length': (
+            "implies(bound('nbits'), nbits < 0 or old(packet.raw_data.pos) + nbits > 8 * len(packet.raw_data))",
+            ['__proof__'])}},
         modifies=['packet.raw_data.pos'],
         native={'gen': _gen_binary, 'build': _build_binary},
     ),
@@ -735,6 +766,16 @@ CONTRACTS += [
                 'ComparisonError': ("outcome(ref_string_parse(self, packet, packet.raw_data.pos, adj)) == 'ComparisonError'", ['__native__'])},
         may_raise={'ValueError': ('True', ['__proof__']), 'KeyError': ('True', ['__proof__']),
                    'UnicodeDecodeError': ('True', ['__proof__']), 'ComparisonError': ('True', ['__proof__'])},
+        # C07 (PROVED): once the buffer has been read, ValueError only when the leading size tag does not describe a
+        # whole number of bytes inside the buffer, or no termination character stands at a character boundary
+        ensures_raise={'ValueError': {'only_undelimited': (
+            "implies(bound('raw_string_buffer'), "
+            f"(({_LEAD}) and ({_RTAG} % 8 != 0 or self.leading_length_size + {_RTAG} > 8 * len(raw_string_buffer) or "
+            "self.leading_length_size > 8 * len(raw_string_buffer) or self.leading_length_size < 0)) or "
+            f"(not ({_LEAD}) and not is_none(self.termination_character) and ({_W} == 0 or "
+            f"forall(lambda k: implies(k % {_W} == 0 and k + {_W} <= len(raw_string_buffer), "
+            f"sl(raw_string_buffer, k, k + {_W}) != self.termination_character), 0, len(raw_string_buffer), "
+            f"pattern=lambda: sl(raw_string_buffer, k, k + {_W})))))", ['__proof__'])}},
         reveal=['bits'],
         modifies=['packet.raw_data.pos'],
         native={'gen': _gen_string, 'build': _build_string},
